@@ -28,7 +28,7 @@ Definition spines18_1 : list rty := leaves18 ++ next18 leaves18.
 
 Definition subst_at (m : mapping) (s : site) (md : mode) (t : rty) : bool :=
   match emit_type s md m t, emit_type s md [] t with
-  | Some w, Some wo => kf_C18 s md m t || c18_ok (site_is_type s md) m t w wo
+  | Some w, Some wo => kf_C18 s md m t || c18_full_ok s md m t w wo
   | _, _ => false
   end.
 
@@ -68,3 +68,13 @@ Proof.
   apply existsb_exists in H. destruct H as (x & Hin & Hp). apply andb_true_iff in Hp as [Hn Hk].
   exists x. split; [exact Hin|]. split; [apply str_eqb_eq; exact Hn | apply negb_true_iff; exact Hk].
 Qed.
+
+(* the absolute clause sees what the relational clause cannot: a mapped name in map-key position that
+   is printed as string with and without the table (seeded regression C18-1) *)
+Definition w18_key : rty := RPath (L "HashMap") [lf "Uuid"; lf "String"].
+Lemma map_key_absolute :
+  emit_type SField MNone table18 w18_key = Some (L "Record<number, string>") /\
+  c18_full_ok SField MNone table18 w18_key (L "Record<number, string>") (L "Record<Uuid, string>") = true /\
+  c18_ok true table18 w18_key (L "Record<string, string>") (L "Record<string, string>") = true /\
+  c18_full_ok SField MNone table18 w18_key (L "Record<string, string>") (L "Record<string, string>") = false.
+Proof. vm_compute. repeat split; reflexivity. Qed.
